@@ -36,8 +36,8 @@ func kernels() []kernel {
 			vars: map[string]string{"cnt": "cnt", "int(c.Config.CountSoftLimit)": "limit"}, sig: "(cnt limit : Int) : Bool"},
 		{name: "fracIsDefault", file: "trait.go", recv: "Trait", fn: "invokeCleanup", kind: "ifcond", must: []string{"frac == 0"}, vars: map[string]string{"frac": "frac"}, sig: "(frac : Int) : Bool"},
 		{name: "withTTLShouldUpdate", file: "context.go", fn: "WithTTL", kind: "ifcond", must: []string{"*existing"}, vars: map[string]string{"*existing": "existing", "ttl": "ttl"}, sig: "(existing ttl : Int) : Bool"},
-		{name: "freshEnoughCond", file: "failover.go", recv: "Failover", fn: "valueFromError", kind: "ifcond", must: []string{"MaxStaleness"}, vars: fresh, sig: "(maxStaleness since : Int) : Bool"},
-		{name: "freshEnoughCondOf", file: "failover_go1.18.go", recv: "FailoverOf", fn: "freshEnough", kind: "ifcond", must: []string{"MaxStaleness"}, vars: fresh, sig: "(maxStaleness since : Int) : Bool"},
+		{name: "freshEnoughCond", file: "failover.go", recv: "Failover", fn: "valueFromError", kind: "ifcond", must: []string{"MaxStaleness"}, trueMeansReturnsTrue: true, vars: fresh, sig: "(maxStaleness since : Int) : Bool"},
+		{name: "freshEnoughCondOf", file: "failover_go1.18.go", recv: "FailoverOf", fn: "freshEnough", kind: "ifcond", must: []string{"MaxStaleness"}, trueMeansReturnsTrue: true, vars: fresh, sig: "(maxStaleness since : Int) : Bool"},
 		{name: "syncUpdateCond", file: "failover.go", recv: "Failover", fn: "ctxSync", kind: "assign", lhs: "syncUpdate", must: []string{"SyncUpdate"}, trueMeansReturnsTrue: true, vars: sync, sig: "(syncUpdate errNonNil : Bool) : Bool"},
 		{name: "syncUpdateCondOf", file: "failover_go1.18.go", recv: "FailoverOf", fn: "ctxSync", kind: "assign", lhs: "syncUpdate", must: []string{"SyncUpdate"}, trueMeansReturnsTrue: true, vars: sync, sig: "(syncUpdate errNonNil : Bool) : Bool"},
 		{name: "fallbackCond", file: "failover.go", recv: "Failover", fn: "Get", kind: "ifcond", must: []string{"FailHard"},
